@@ -207,7 +207,8 @@ Qed.
 Corollary box_includes_edges w nw se p : w <= px p ->
   box_closed nw se p -> box_contains w nw se [] p = true.
 Proof.
-  intros Hp H. apply box_contains_spec; auto; [intros h []|]. split; [assumption|intros h []].
+  intros Hp H. apply (box_contains_spec w nw se [] p); [intros h []|assumption|].
+  split; [assumption|intros h []].
 Qed.
 
 (* a coordinate on the edge of a BOX used as a hole is excluded (GeoBox membership is
